@@ -181,8 +181,6 @@ func (r *Renderer) block(sts []any) {
 	}
 	if len(sts) > 0 {
 		r.stmtGap()
-	} else {
-		r.nlOK()
 	}
 	r.emit("}", " ")
 }
@@ -426,22 +424,15 @@ func (r *Renderer) rawExpr(e N, sep string) {
 		r.emit("{", sep)
 		ks, vs := L(e, "keys"), L(e, "vals")
 		for i := range ks {
+			s := ""
 			if i > 0 {
 				r.tight(",")
 				r.nlOK()
-			} else {
-				r.nlOK()
-			}
-			s := ""
-			if i > 0 {
 				s = " "
 			}
 			r.Expr(ks[i].(N), s)
 			r.tight(":")
 			r.Expr(vs[i].(N), " ")
-		}
-		if len(ks) > 0 {
-			r.nlOK()
 		}
 		r.tight("}")
 	case "idx":
@@ -552,18 +543,16 @@ func exprOf(st N) N {
 	return N{"k": "?"}
 }
 
+// exprList renders comma separated items; a line break is permitted after each comma.
 func (r *Renderer) exprList(items []any) {
 	for i, it := range items {
 		s := ""
 		if i > 0 {
 			r.tight(",")
 			s = " "
+			r.nlOK()
 		}
-		r.nlOK()
 		r.Expr(it.(N), s)
-	}
-	if len(items) > 0 {
-		r.nlOK()
 	}
 }
 
